@@ -471,8 +471,10 @@ fn run_loop_case(reds: &[RCfg], n_subs: usize, cap: usize, actions: &[Ac]) -> Op
         }
         let _ = store.add_subscriber(Arc::new(Reader { store: Arc::downgrade(&store), reads: reads.clone() }));
     }
-    for a in actions {
-        if store.dispatch(*a).is_err() {
+    for (k, a) in actions.iter().enumerate() {
+        // alternate between the two entry points: the inherent StoreImpl::dispatch and Dispatcher::dispatch
+        let r = if k % 2 == 0 { StoreImpl::dispatch(&*store, *a).is_ok() } else { <Arc<StoreImpl<St, Ac>> as Dispatcher<Ac>>::dispatch(&store, *a).is_ok() };
+        if !r {
             return Some(("O-C02-dispatch-open".into(), "dispatch Ok on an open store".into(), "Err".into()));
         }
     }
@@ -860,6 +862,421 @@ fn replay_subs(case: &str) -> Option<String> {
     run_subs_case(n, t, d).map(|(ob, exp, got)| found("subs", &ob, case.to_string(), exp, got))
 }
 
+
+// ---------------------------------------------------------------- suite `block`: BlockOnFull with a stalled reducer (C05, C02)
+// case: "block entry=<i|t> cap=<n>"   (i = StoreImpl::dispatch, t = Dispatcher::dispatch on Arc<StoreImpl>)
+fn run_block_case(entry: char, cap: usize) -> Option<(String, String, String)> {
+    use std::sync::mpsc;
+    let (gate_tx, gate_rx) = mpsc::channel::<()>();
+    let gate_rx = Arc::new(Mutex::new(gate_rx));
+    let (entered_tx, entered_rx) = mpsc::channel::<()>();
+    let entered_tx = Mutex::new(entered_tx);
+    let reduced: Arc<Mutex<Vec<Ac>>> = Arc::new(Mutex::new(vec![]));
+    let r2 = reduced.clone();
+    let g2 = gate_rx.clone();
+    let store = StoreBuilder::<St, Ac>::new(0)
+        .with_capacity(cap)
+        .with_reducer(Box::new(crate::reducer::FnReducer::from(move |s: &St, a: &Ac| {
+            if *a == 0 {
+                let _ = entered_tx.lock().unwrap().send(());
+                let _ = g2.lock().unwrap().recv_timeout(Duration::from_secs(10));
+            }
+            r2.lock().unwrap().push(*a);
+            DispatchOp::Dispatch(mix(*s, *a, 0), None)
+        })))
+        .build()
+        .unwrap();
+    let send = move |st: &Arc<StoreImpl<St, Ac>>, a: Ac| -> bool {
+        if entry == 't' {
+            <Arc<StoreImpl<St, Ac>> as Dispatcher<Ac>>::dispatch(st, a).is_ok()
+        } else {
+            StoreImpl::dispatch(&**st, a).is_ok()
+        }
+    };
+    // action 0 is taken by the reducer and parks it
+    if !send(&store, 0) {
+        return Some(("O-C02-dispatch-open".into(), "dispatch Ok on an open store".into(), "Err".into()));
+    }
+    if entered_rx.recv_timeout(Duration::from_secs(10)).is_err() {
+        return Some(("O-C01-loop-state".into(), "the reducer starts reducing action 0".into(), "it did not within 10 s".into()));
+    }
+    // `cap` more actions fill the queue without waiting
+    for a in 1..=cap as Ac {
+        let t0 = Instant::now();
+        let ok = send(&store, a);
+        if !ok || t0.elapsed() > Duration::from_millis(1000) {
+            return Some(("O-C05-send-block-lossless".into(), format!("dispatch #{} into a queue with room returns Ok at once", a), format!("ok={} after {:?}", ok, t0.elapsed())));
+        }
+    }
+    // one more must wait: the number of accepted-but-not-taken actions never exceeds the capacity
+    let returned = Arc::new(AtomicUsize::new(0));
+    let ret2 = returned.clone();
+    let st2 = store.clone();
+    let extra = cap as Ac + 1;
+    let h = std::thread::spawn(move || {
+        let ok = send(&st2, extra);
+        ret2.store(if ok { 1 } else { 2 }, Ordering::SeqCst);
+    });
+    std::thread::sleep(Duration::from_millis(300));
+    let early = returned.load(Ordering::SeqCst);
+    let _ = gate_tx.send(());
+    let _ = h.join();
+    // a second action dispatched after the blocked one returned must be reduced after it
+    let _ = send(&store, extra + 1);
+    store.stop();
+    if early != 0 {
+        return Some(("O-C05-send-block-lossless".into(), format!("with the reducer stalled and {} actions queued (capacity {}), one more dispatch waits", cap, cap), format!("it returned {} while the queue was full", if early == 1 { "Ok" } else { "Err" })));
+    }
+    let got = reduced.lock().unwrap().clone();
+    let exp: Vec<Ac> = (0..=extra + 1).collect();
+    if got != exp {
+        return Some(("O-C02-send-fifo".into(), format!("reduce order {:?}", exp), format!("{:?}", got)));
+    }
+    None
+}
+fn suite_block() -> Option<String> {
+    for entry in ['i', 't'] {
+        for cap in [1usize, 2] {
+            if let Some((ob, exp, got)) = run_block_case(entry, cap) {
+                return Some(found("block", &ob, format!("block entry={} cap={}", entry, cap), exp, got));
+            }
+        }
+    }
+    None
+}
+fn replay_block(case: &str) -> Option<String> {
+    let (mut e, mut cap) = ('i', 1);
+    for tok in case.split_whitespace() {
+        if let Some(v) = tok.strip_prefix("entry=") {
+            e = v.chars().next().unwrap();
+        } else if let Some(v) = tok.strip_prefix("cap=") {
+            cap = v.parse().unwrap();
+        }
+    }
+    run_block_case(e, cap).map(|(ob, exp, got)| found("block", &ob, case.to_string(), exp, got))
+}
+
+// ---------------------------------------------------------------- suite `twostores`: one store operated from a callback of another (C19, C04)
+// case: "twostores same_name=<0|1>"
+fn run_twostores_case(same_name: bool) -> Option<(String, String, String)> {
+    use std::sync::mpsc;
+    let log_b: Log = Arc::new(Mutex::new(vec![]));
+    let (gate_tx, gate_rx) = mpsc::channel::<()>();
+    let gate_rx = Mutex::new(gate_rx);
+    let lb = log_b.clone();
+    let name_a = "store".to_string();
+    let name_b = if same_name { "store".to_string() } else { "other".to_string() };
+    let b = StoreBuilder::<St, Ac>::new(0)
+        .with_name(name_b)
+        .with_reducer(Box::new(crate::reducer::FnReducer::from(move |s: &St, a: &Ac| {
+            if *a == 1 {
+                let _ = gate_rx.lock().unwrap().recv_timeout(Duration::from_secs(10));
+            }
+            lb.lock().unwrap().push(Ev::Reduce(0, *s, *a));
+            DispatchOp::Dispatch(s + a, None)
+        })))
+        .build()
+        .unwrap();
+    let _ = b.add_subscriber(Arc::new(Sb { id: 0, log: log_b.clone() }));
+    for a in 1..=3 {
+        b.dispatch(a).unwrap();
+    }
+    // store A: its subscriber opens B's gate, stops B and looks at B when stop() returns
+    struct Stopper {
+        b: Arc<StoreImpl<St, Ac>>,
+        gate: Mutex<mpsc::Sender<()>>,
+        log_b: Log,
+        out: Mutex<mpsc::Sender<(St, usize, usize)>>,
+    }
+    impl Subscriber<St, Ac> for Stopper {
+        fn on_notify(&self, _s: &St, _a: &Ac) {
+            let _ = self.gate.lock().unwrap().send(());
+            self.b.stop();
+            let l = self.log_b.lock().unwrap();
+            let notes = l.iter().filter(|e| matches!(e, Ev::Notify(..))).count();
+            let unsub = l.iter().filter(|e| matches!(e, Ev::Unsub(..))).count();
+            let _ = self.out.lock().unwrap().send((self.b.get_state(), notes, unsub));
+        }
+    }
+    let (out_tx, out_rx) = mpsc::channel();
+    let a = StoreBuilder::<St, Ac>::new(0)
+        .with_name(name_a)
+        .with_reducer(Box::new(crate::reducer::FnReducer::from(|s: &St, a: &Ac| DispatchOp::Dispatch(s + a, None))))
+        .build()
+        .unwrap();
+    let _ = a.add_subscriber(Arc::new(Stopper { b: b.clone(), gate: Mutex::new(gate_tx), log_b: log_b.clone(), out: Mutex::new(out_tx) }));
+    a.dispatch(7).unwrap();
+    let seen = out_rx.recv_timeout(Duration::from_secs(20));
+    a.stop();
+    b.stop();
+    match seen {
+        Ok((state, notes, unsub)) => {
+            if (state, notes, unsub) != (6, 3, 1) {
+                return Some(("O-C04-stop-exit-then-join".into(), "when stop() of store B returns (called from a subscriber of store A): B's state 6, 3 notifications, subscriber released".into(), format!("state {}, {} notifications, {} released", state, notes, unsub)));
+            }
+        }
+        Err(_) => return Some(("O-C04-stop-exit-then-join".into(), "stop() of store B called from a subscriber of store A returns".into(), "no report within 20 s".into())),
+    }
+    if a.get_state() != 7 {
+        return Some(("O-C19-do_reduce-frame".into(), "store A's state is 7".into(), format!("{}", a.get_state())));
+    }
+    None
+}
+fn suite_twostores() -> Option<String> {
+    for same in [true, false] {
+        if let Some((ob, exp, got)) = run_twostores_case(same) {
+            return Some(found("twostores", &ob, format!("twostores same_name={}", same as u8), exp, got));
+        }
+    }
+    None
+}
+fn replay_twostores(case: &str) -> Option<String> {
+    let same = case.contains("same_name=1");
+    run_twostores_case(same).map(|(ob, exp, got)| found("twostores", &ob, case.to_string(), exp, got))
+}
+
+// ---------------------------------------------------------------- suite `channeled`: subscribed_with end to end (C10)
+// case: "channeled policy=<B|O|L> cap=<n> teardown=<u|s>"
+fn run_channeled_case(policy: char, cap: usize, teardown: char) -> Option<(String, String, String)> {
+    use std::sync::mpsc;
+    let pol = match policy {
+        'O' => BackpressurePolicy::DropOldest,
+        'L' => BackpressurePolicy::DropLatest,
+        _ => BackpressurePolicy::BlockOnFull,
+    };
+    struct Gated {
+        got: Arc<Mutex<Vec<(St, Ac)>>>,
+        gate: Mutex<mpsc::Receiver<()>>,
+        entered: Mutex<mpsc::Sender<()>>,
+        thread: Arc<Mutex<Option<std::thread::ThreadId>>>,
+    }
+    impl Subscriber<St, Ac> for Gated {
+        fn on_notify(&self, s: &St, a: &Ac) {
+            *self.thread.lock().unwrap() = Some(std::thread::current().id());
+            if *a == 1 {
+                let _ = self.entered.lock().unwrap().send(());
+                let _ = self.gate.lock().unwrap().recv_timeout(Duration::from_secs(10));
+            }
+            self.got.lock().unwrap().push((*s, *a));
+        }
+    }
+    struct Direct {
+        got: Arc<Mutex<Vec<(St, Ac)>>>,
+        thread: Arc<Mutex<Option<std::thread::ThreadId>>>,
+        seen: Mutex<mpsc::Sender<Ac>>,
+    }
+    impl Subscriber<St, Ac> for Direct {
+        fn on_notify(&self, s: &St, a: &Ac) {
+            *self.thread.lock().unwrap() = Some(std::thread::current().id());
+            self.got.lock().unwrap().push((*s, *a));
+            let _ = self.seen.lock().unwrap().send(*a);
+        }
+    }
+    let store = StoreBuilder::<St, Ac>::new(0)
+        .with_reducer(Box::new(crate::reducer::FnReducer::from(|s: &St, a: &Ac| DispatchOp::Dispatch(mix(*s, *a, 0), None))))
+        .build()
+        .unwrap();
+    let got_c = Arc::new(Mutex::new(vec![]));
+    let got_d = Arc::new(Mutex::new(vec![]));
+    let (gate_tx, gate_rx) = mpsc::channel();
+    let (ent_tx, ent_rx) = mpsc::channel();
+    let (seen_tx, seen_rx) = mpsc::channel();
+    let th_c = Arc::new(Mutex::new(None));
+    let th_d = Arc::new(Mutex::new(None));
+    // the channeled subscriber is registered first: the direct one sees an action after it was forwarded
+    let sub = match store.subscribed_with(cap, pol, Box::new(Gated { got: got_c.clone(), gate: Mutex::new(gate_rx), entered: Mutex::new(ent_tx), thread: th_c.clone() })) {
+        Ok(s) => s,
+        Err(_) => return Some(("O-C10-subscribed_with-thread-and-registration".into(), "subscribed_with succeeds".into(), "Err".into())),
+    };
+    let _d = store.add_subscriber(Arc::new(Direct { got: got_d.clone(), thread: th_d.clone(), seen: Mutex::new(seen_tx) }));
+    // n notifications: the first parks the delivery thread, the others queue up behind it
+    let n: Ac = if policy == 'B' { cap as Ac + 1 } else { 2 * cap as Ac + 2 };
+    for a in 1..=n {
+        if store.dispatch(a).is_err() {
+            return Some(("O-C02-dispatch-open".into(), "dispatch Ok".into(), "Err".into()));
+        }
+        if a == 1 && ent_rx.recv_timeout(Duration::from_secs(10)).is_err() {
+            return Some(("O-C10-delivery-loop".into(), "the delivery thread calls the subscriber for the first notification".into(), "not within 10 s".into()));
+        }
+    }
+    // a stalled subscriber never stalls reducing (drop policies; blocking policy: queue has room for n-1)
+    for a in 1..=n {
+        match seen_rx.recv_timeout(Duration::from_secs(5)) {
+            Ok(x) if x == a => {}
+            other => return Some(("O-C06-send-never-blocks".into(), format!("the direct subscriber sees action {} while the channeled one is stalled", a), format!("{:?}", other))),
+        }
+    }
+    // teardown on another thread while the queue is still full; it must wait for the queued items
+    let done = Arc::new(AtomicUsize::new(0));
+    let d2 = done.clone();
+    let st2 = store.clone();
+    let h = std::thread::spawn(move || {
+        if teardown == 'u' { sub.unsubscribe(); } else { st2.stop(); }
+        d2.store(1, Ordering::SeqCst);
+    });
+    std::thread::sleep(Duration::from_millis(150));
+    let early = done.load(Ordering::SeqCst);
+    let before_gate = got_c.lock().unwrap().len();
+    let _ = gate_tx.send(());
+    let _ = h.join();
+    let at_return: Vec<(St, Ac)> = got_c.lock().unwrap().clone();
+    store.stop();
+    std::thread::sleep(Duration::from_millis(50));
+    let after: Vec<(St, Ac)> = got_c.lock().unwrap().clone();
+    let direct: Vec<(St, Ac)> = got_d.lock().unwrap().clone();
+    // expected: the first notification, then what the policy keeps of the others
+    let rest: Vec<(St, Ac)> = direct.iter().filter(|(_, a)| *a >= 2).cloned().collect();
+    let kept: Vec<(St, Ac)> = match policy {
+        'O' => rest[rest.len() - cap.min(rest.len())..].to_vec(),
+        'L' => rest[..cap.min(rest.len())].to_vec(),
+        _ => rest.clone(),
+    };
+    let mut exp = vec![direct[0]];
+    exp.extend(kept);
+    if early != 0 || before_gate != 0 {
+        return Some(("O-C10-release-order".into(), "unsubscribe()/stop() waits for the delivery thread (which is still inside the first callback)".into(), format!("returned early={} delivered_before_gate={}", early, before_gate)));
+    }
+    if at_return != exp {
+        let ob = if policy == 'B' { "O-C10-delivery-loop" } else { "O-C10-release-touches-nothing-queued" };
+        return Some((ob.into(), format!("delivered when {} returned: {:?}", if teardown == 'u' { "unsubscribe()" } else { "stop()" }, exp), format!("{:?}", at_return)));
+    }
+    if after != at_return {
+        return Some(("O-C10-forward-after-release".into(), "nothing is delivered after the release returned".into(), format!("{:?}", after)));
+    }
+    if *th_c.lock().unwrap() == *th_d.lock().unwrap() {
+        return Some(("O-C10-forward-one-clone".into(), "the channeled subscriber runs on its own thread, not in the reducer context".into(), "same thread as the direct subscriber".into()));
+    }
+    None
+}
+fn suite_channeled() -> Option<String> {
+    for policy in ['B', 'O', 'L'] {
+        for cap in [1usize, 3] {
+            for teardown in ['u', 's'] {
+                if let Some((ob, exp, got)) = run_channeled_case(policy, cap, teardown) {
+                    return Some(found("channeled", &ob, format!("channeled policy={} cap={} teardown={}", policy, cap, teardown), exp, got));
+                }
+            }
+        }
+    }
+    None
+}
+fn replay_channeled(case: &str) -> Option<String> {
+    let (mut p, mut cap, mut t) = ('B', 1, 'u');
+    for tok in case.split_whitespace() {
+        if let Some(v) = tok.strip_prefix("policy=") {
+            p = v.chars().next().unwrap();
+        } else if let Some(v) = tok.strip_prefix("cap=") {
+            cap = v.parse().unwrap();
+        } else if let Some(v) = tok.strip_prefix("teardown=") {
+            t = v.chars().next().unwrap();
+        }
+    }
+    run_channeled_case(p, cap, t).map(|(ob, exp, got)| found("channeled", &ob, case.to_string(), exp, got))
+}
+
+// ---------------------------------------------------------------- suite `iter`: the state iterator end to end (C14)
+// case: "iter n=<actions> keep=<0|1> policy=<B|L> full=<0|1>"
+fn run_iter_case(n: usize, keep: bool, policy: char, full: bool) -> Option<(String, String, String)> {
+    use std::sync::mpsc;
+    let pol = if policy == 'L' { BackpressurePolicy::DropLatest } else { BackpressurePolicy::BlockOnFull };
+    let (gate_tx, gate_rx) = mpsc::channel::<()>();
+    let gate_rx = Mutex::new(gate_rx);
+    let (ent_tx, ent_rx) = mpsc::channel::<()>();
+    let ent_tx = Mutex::new(ent_tx);
+    let store = StoreBuilder::<St, Ac>::new(0)
+        .with_capacity(if full { 1 } else { 16 })
+        .with_policy(pol)
+        .with_reducer(Box::new(crate::reducer::FnReducer::from(move |s: &St, a: &Ac| {
+            if full && *a == 1 {
+                let _ = ent_tx.lock().unwrap().send(());
+                let _ = gate_rx.lock().unwrap().recv_timeout(Duration::from_secs(10));
+            }
+            if keep && *a % 2 == 0 { DispatchOp::Keep(mix(*s, *a, 0), None) } else { DispatchOp::Dispatch(mix(*s, *a, 0), None) }
+        })))
+        .build()
+        .unwrap();
+    let direct: Arc<Mutex<Vec<Ev>>> = Arc::new(Mutex::new(vec![]));
+    let mut it = store.iter();
+    let _d = store.add_subscriber(Arc::new(Sb { id: 0, log: direct.clone() }));
+    let (out_tx, out_rx) = mpsc::channel();
+    let consumer = std::thread::spawn(move || {
+        loop {
+            let x = it.next();
+            let end = x.is_none();
+            let _ = out_tx.send(x);
+            if end {
+                let _ = out_tx.send(it.next());
+                let _ = out_tx.send(it.next());
+                break;
+            }
+        }
+    });
+    let count = if full { 2 } else { n };
+    for a in 1..=count as Ac {
+        let _ = store.dispatch(a);
+        if full && a == 1 {
+            let _ = ent_rx.recv_timeout(Duration::from_secs(10));
+        }
+    }
+    if full {
+        // the dispatch queue is full at the moment of close(); then the reducer is released
+        store.close();
+        let _ = gate_tx.send(());
+    }
+    store.stop();
+    let mut got: Vec<(St, Ac)> = vec![];
+    let mut nones = 0;
+    loop {
+        match out_rx.recv_timeout(Duration::from_secs(5)) {
+            Ok(Some(p)) => {
+                if nones > 0 {
+                    return Some(("O-C14-next-end".into(), "None forever after the end".into(), format!("{:?} after None", p)));
+                }
+                got.push(p)
+            }
+            Ok(None) => {
+                nones += 1;
+                if nones == 3 {
+                    break;
+                }
+            }
+            Err(_) => {
+                std::mem::forget(consumer);
+                return Some(("O-C07-loop-trace".into(), "after stop() the iterator yields the remaining pairs and then None".into(), format!("it yielded {:?} and then blocked (no None within 5 s)", got)));
+            }
+        }
+    }
+    let _ = consumer.join();
+    let exp: Vec<(St, Ac)> = direct.lock().unwrap().iter().filter_map(|e| if let Ev::Notify(_, s, a) = e { Some((*s, *a)) } else { None }).collect();
+    if got != exp {
+        return Some(("O-C14-iter-forward-one-clone".into(), format!("the iterator yields the notification stream {:?}", exp), format!("{:?}", got)));
+    }
+    None
+}
+fn suite_iter() -> Option<String> {
+    for (n, keep, policy, full) in [(0usize, false, 'B', false), (1, false, 'B', false), (4, false, 'B', false), (5, true, 'B', false), (2, false, 'L', true)] {
+        if let Some((ob, exp, got)) = run_iter_case(n, keep, policy, full) {
+            return Some(found("iter", &ob, format!("iter n={} keep={} policy={} full={}", n, keep as u8, policy, full as u8), exp, got));
+        }
+    }
+    None
+}
+fn replay_iter(case: &str) -> Option<String> {
+    let (mut n, mut keep, mut p, mut full) = (1, false, 'B', false);
+    for tok in case.split_whitespace() {
+        if let Some(v) = tok.strip_prefix("n=") {
+            n = v.parse().unwrap();
+        } else if let Some(v) = tok.strip_prefix("keep=") {
+            keep = v == "1";
+        } else if let Some(v) = tok.strip_prefix("policy=") {
+            p = v.chars().next().unwrap();
+        } else if let Some(v) = tok.strip_prefix("full=") {
+            full = v == "1";
+        }
+    }
+    run_iter_case(n, keep, p, full).map(|(ob, exp, got)| found("iter", &ob, case.to_string(), exp, got))
+}
+
 // ---------------------------------------------------------------- known findings: deterministic demonstrations
 fn finding_c11() -> Option<String> {
     // F-C11-1: effects of actions accepted before stop() are skipped
@@ -948,6 +1365,10 @@ fn verif_witness() {
                 "builder" => suite_builder(),
                 "selector" => suite_selector(),
                 "subs" => suite_subs(),
+                "block" => suite_block(),
+                "twostores" => suite_twostores(),
+                "channeled" => suite_channeled(),
+                "iter" => suite_iter(),
                 "finding-c11" => finding_c11(),
                 "finding-c18" => finding_c18(),
                 "finding-c14" => finding_c14(),
@@ -968,6 +1389,10 @@ fn verif_witness() {
             "builder" => replay_builder(case),
             "selector" => replay_selector(case),
             "subs" => replay_subs(case),
+            "block" => replay_block(case),
+            "twostores" => replay_twostores(case),
+            "channeled" => replay_channeled(case),
+            "iter" => replay_iter(case),
             "finding-c11" => finding_c11(),
             "finding-c18" => finding_c18(),
             "finding-c14" => finding_c14(),
